@@ -178,11 +178,116 @@ fn borrowed_targets(rep: &mut Report, rng: &mut Rng) {
     rt!("BorrowingEnum::Pair", BorrowingEnum::Pair(s1.as_str(), n), BorrowingEnum<'_>);
 }
 
+/// One very long string (beyond any buffer a reader might recycle) followed by
+/// more strings and names in the same text.
+fn huge_strings(rep: &mut Report, rng: &mut Rng, max: usize) {
+    use std::collections::BTreeMap;
+    let n = match rng.below(4) {
+        0 => rng.range(65_000, 66_000),
+        1 => rng.range(130_000, 132_000),
+        _ => rng.range(66_000, max),
+    };
+    let mut big = String::with_capacity(n + 8);
+    let alphabet = ['a', 'b', ' ', '"', '\\', 'é', '中', '\n', 'z'];
+    while big.len() < n {
+        big.push(*rng.pick(&alphabet));
+    }
+    let small = crate::gen::gen_string(rng, 12);
+    let mut m = BTreeMap::new();
+    m.insert("k".to_string() + &crate::gen::gen_string(rng, 4), crate::gen::gen_string(rng, 8));
+    m.insert(small.clone(), "v".to_string());
+    let x: (String, String, BTreeMap<String, String>, Option<String>) = (big, small, m, Some("tail".into()));
+    type T = (String, String, std::collections::BTreeMap<String, String>, Option<String>);
+    rep.max("max_huge_string_len", n as u64);
+    let routes: Vec<(&str, Result<Result<T, String>, panics::PanicInfo>)> = vec![
+        ("to_string/from_str", panics::guarded(|| serde_lexpr::to_string(&x).map_err(|e| e.to_string()).and_then(|s| serde_lexpr::from_str::<T>(&s).map_err(|e| e.to_string())))),
+        ("to_vec/from_slice", panics::guarded(|| serde_lexpr::to_vec(&x).map_err(|e| e.to_string()).and_then(|b| serde_lexpr::from_slice::<T>(&b).map_err(|e| e.to_string())))),
+        ("to_vec/from_reader", panics::guarded(|| serde_lexpr::to_vec(&x).map_err(|e| e.to_string()).and_then(|b| serde_lexpr::from_reader::<T>(&b[..]).map_err(|e| e.to_string())))),
+        ("to_value/from_value", panics::guarded(|| serde_lexpr::to_value(&x).map_err(|e| e.to_string()).and_then(|v| serde_lexpr::from_value::<T>(&v).map_err(|e| e.to_string())))),
+    ];
+    for (route, r) in routes {
+        rep.eval();
+        rep.distinct(hash2(hash_str(route), hash_str(&x.0)));
+        match r {
+            Err(p) => {
+                if p.in_library() {
+                    rep.violation("huge", format!("C04:panic:huge-string:{}", p.sig()), format!("via {}: {}", route, p.short()), json!({"len": n}));
+                } else {
+                    rep.inconclusive(format!("harness panic: {}", p.short()));
+                }
+                return;
+            }
+            Ok(Err(e)) => {
+                rep.violation("huge", "C04:huge-string-route-error".into(), format!("a {}-byte string followed by more strings, via {}: {}", n, route, e.chars().take(300).collect::<String>()), json!({"len": n, "route": route}));
+                return;
+            }
+            Ok(Ok(y)) => {
+                if y != x {
+                    let which = if y.0 != x.0 { "the long string itself" } else if y.1 != x.1 { "the string after it" } else if y.2 != x.2 { "the map after it" } else { "the option after it" };
+                    rep.violation("huge", "C04:huge-string-route-differs".into(), format!("a {}-byte string followed by more strings, via {}: {} comes back different (second string {:?} -> {} chars)", n, route, which, show_str(&x.1), y.1.chars().count()), json!({"len": n, "route": route}));
+                    return;
+                }
+                rep.count("huge:ok");
+            }
+        }
+    }
+}
+
+/// f32 through to_value / from_value: the value route is exact for every bit pattern.
+fn f32_block(rep: &mut Report, lo: u64, hi: u64) {
+    let mut bad: Option<(u32, String)> = None;
+    for bits in lo..hi {
+        let x = f32::from_bits(bits as u32);
+        let ok = match serde_lexpr::to_value(&x) {
+            Ok(v) => {
+                let shape_ok = match v.as_f64() {
+                    Some(d) => v.as_number().map_or(false, |n| n.is_f64()) && (d.to_bits() == (x as f64).to_bits() || x.is_nan() && d.is_nan()),
+                    None => false,
+                };
+                shape_ok
+                    && match serde_lexpr::from_value::<f32>(&v) {
+                        Ok(y) => y.to_bits() == x.to_bits() || (x.is_nan() && y.is_nan()),
+                        Err(_) => false,
+                    }
+            }
+            Err(_) => false,
+        };
+        if !ok && bad.is_none() {
+            let detail = match serde_lexpr::to_value(&x) {
+                Ok(v) => format!("{:?} (bits {:#010x}) -> {:?} -> {:?}", x, bits, v, serde_lexpr::from_value::<f32>(&v).map(|y| format!("{:?} (bits {:#010x})", y, y.to_bits())).map_err(|e| e.to_string())),
+                Err(e) => format!("to_value({:?}) failed: {}", x, e),
+            };
+            bad = Some((bits as u32, detail));
+        }
+    }
+    rep.evals(hi - lo);
+    rep.distinct(lo);
+    rep.count_n("f32-bit-patterns-enumerated", hi - lo);
+    if let Some((bits, detail)) = bad {
+        let class = if f32::from_bits(bits).is_nan() { "nan" } else if !f32::from_bits(bits).is_finite() { "infinite" } else if f32::from_bits(bits).is_normal() { "normal" } else { "subnormal-or-zero" };
+        rep.violation("f32", format!("C04:f32-value-route-differs:{}", class), detail, json!({"bits": bits}));
+    }
+}
+
 pub fn sets(ctx: &Ctx) -> Vec<CaseSet> {
     let fam = family();
     let n = fam.len() as u64;
     let per = ctx.size(6_000, 180_000);
+    let huge_max = ctx.size(200_000, 1_200_000) as usize;
+    // every f32 bit pattern in thorough; in quick 2^24 of them: 256 blocks of 2^16 whose position depends on the seed
+    let (f32_blocks, f32_block_len) = if ctx.thorough { (4096u64, 1u64 << 20) } else { (256u64, 1u64 << 16) };
+    let f32_offset = if ctx.thorough { 0 } else { (ctx.seed % 256) << 16 };
+    let thorough = ctx.thorough;
     vec![
+        CaseSet::new("huge-strings-then-more-text", ctx.size(6, 48), Box::new(move |rep, rng, _| huge_strings(rep, rng, huge_max))),
+        CaseSet::new(
+            "f32-bit-patterns",
+            f32_blocks,
+            Box::new(move |rep, _rng, case| {
+                let lo = if thorough { case * f32_block_len } else { case * (1u64 << 24) + f32_offset };
+                f32_block(rep, lo, lo + f32_block_len);
+            }),
+        ),
         CaseSet::new("borrowed-targets", ctx.size(2_000, 100_000), Box::new(move |rep, rng, _| borrowed_targets(rep, rng))),
         CaseSet::new(
         "type-family-round-trips",
